@@ -392,8 +392,8 @@ StageClausesW(s, e, t, connS, connT) ==
             /\ T.wt = RestrictWt(S.wt, DOMAIN S.wt \ R)),
     (* a tracked file or directory named through another spelling (docs/, ./docs, d/./x): what the arguments name after *)
     (* lexical cleaning is what is removed                                                                             *)
-    Cl("C04_RmSpelled", {"C04", "C06"}, e.ev = "rm" /\ ~Dom(e) /\ "cpaths" \in DOMAIN e /\ Len(e.cpaths) > 0 /\ Ok(e),
-        (e.ev = "rm" /\ ~Dom(e) /\ "cpaths" \in DOMAIN e /\ Len(e.cpaths) > 0 /\ Ok(e)) =>
+    Cl("C04_RmSpelled", {"C04", "C06"}, e.ev = "rm" /\ ~Dom(e) /\ "cpaths" \in DOMAIN e /\ Len(e.cpaths) > 0 /\ Ok(e) /\ NoDFArgs(S, SeqToSet(e.cpaths)),
+        (e.ev = "rm" /\ ~Dom(e) /\ "cpaths" \in DOMAIN e /\ Len(e.cpaths) > 0 /\ Ok(e) /\ NoDFArgs(S, SeqToSet(e.cpaths))) =>
             LET R == SelAll(S, SeqToSet(e.cpaths)) IN
             /\ IdxPairs(T.idx) = {x \in IdxPairs(S.idx) : x[1] \notin R}
             /\ T.wt = RestrictWt(S.wt, DOMAIN S.wt \ R)),
@@ -412,10 +412,10 @@ StageClausesW(s, e, t, connS, connT) ==
     (* name after lexical cleaning is what counts                                                                 *)
     Cl("C09_Spelled", {"C09"}, e.ev = "restore" /\ ~Dom(e) /\ "cpaths" \in DOMAIN e /\ Len(e.cpaths) > 0
                                  /\ (\A i \in 1..Len(e.cpaths) : Tracked(S, e.cpaths[i]) /\ e.cpaths[i] \in DOMAIN S.wt)
-                                 /\ Cardinality(SeqToSet(e.cpaths)) = Len(e.cpaths),
+                                 /\ Cardinality(SeqToSet(e.cpaths)) = Len(e.cpaths) /\ NoDFArgs(S, SeqToSet(e.cpaths)),
         (e.ev = "restore" /\ ~Dom(e) /\ "cpaths" \in DOMAIN e /\ Len(e.cpaths) > 0
             /\ (\A i \in 1..Len(e.cpaths) : Tracked(S, e.cpaths[i]) /\ e.cpaths[i] \in DOMAIN S.wt)
-            /\ Cardinality(SeqToSet(e.cpaths)) = Len(e.cpaths)) =>
+            /\ Cardinality(SeqToSet(e.cpaths)) = Len(e.cpaths) /\ NoDFArgs(S, SeqToSet(e.cpaths))) =>
             /\ Ok(e)
             /\ \A i \in 1..Len(e.cpaths) : e.cpaths[i] \in DOMAIN T.wt /\ T.wt[e.cpaths[i]] = Obj(S, IdxId(S.idx, e.cpaths[i])).d
             /\ T.idx = S.idx),
